@@ -465,6 +465,8 @@ def match_known(known, unit, fail):
             continue
         if k.get("witness_key") and k["witness_key"] != fail.get("witness_key"):
             continue
+        if k.get("msg_contains") and k["msg_contains"] not in (fail.get("msg") or ""):
+            continue
         return k
     return None
 
